@@ -128,7 +128,7 @@ func escrowStateStores(l *Loaded, fn *ssa.Function) []stateStore {
 }
 
 func checkC03(c *Check) {
-	c.Explanation = "Code-shape conditions for 'a close always takes effect and escrow records stay consistent', decided on every CFG path of the escrow keeper: (R1) every assignment of a state constant to an escrow Account/Payment reaches a persistence of that same object on every path to a nil-error return (callee summaries: a callee counts only if it persists its argument on all of its success paths); (R2) every non-overdrawn success return of the settle core hands the account's open payments to its caller (or is dominated by len(payments)==0); (R3) the function that marks an account closed/overdrawn marks every payment of that list with the matching state and invokes both hook lists; (R4) 'open' is only ever assigned in constructors behind a !store.Has guard, and every mutator is dominated by a State==Open check; (R5) a record marked closed/overdrawn passes through the withdraw helper, whose success returns are dominated either by Balance.IsZero() or by a successful payout followed by zeroing."
+	c.Explanation = "Code-shape conditions for 'a close always takes effect and escrow records stay consistent', decided on every CFG path of the escrow keeper: (R1) every assignment of a state constant to an escrow Account/Payment reaches a persistence of that same object on every path to a nil-error return (callee summaries: a callee counts only if it persists its argument on all of its success paths); (R2) every non-overdrawn success return of the settle core hands the account's open payments to its caller (or is dominated by len(payments)==0); (R3) the function that marks an account closed/overdrawn marks every payment of that list with the matching state and invokes both hook lists; (R4) 'open' is only ever assigned in constructors behind a !store.Has guard, and every mutator is dominated by a State==Open check; (R5) a record marked closed/overdrawn passes through the withdraw helper, whose success returns are dominated either by Balance.IsZero() or by a successful payout followed by zeroing; (R7) the genesis validation calls a payment a duplicate only when account id and payment id both repeat (the identity of paymentKey)."
 	c.NotDecided = "that ValidateGenesis(ExportGenesis) accepts every reachable state (global invariant over histories); that an overdrawn account's balance is zero (distribution arithmetic)"
 	l := c.L
 	kfuncs := l.pkgFuncs("x/escrow/keeper")
@@ -169,52 +169,9 @@ func checkC03(c *Check) {
 	c.Floor("R1", 7)
 
 	// ---- R2
-	c.Analysed(fnName(settle))
-	res := settle.Signature.Results()
-	pi, oi := -1, -1
-	for i := 0; i < res.Len(); i++ {
-		if _, ok := res.At(i).Type().(*types.Slice); ok {
-			pi = i
-		}
-		if b, ok := res.At(i).Type().(*types.Basic); ok && b.Kind() == types.Bool {
-			oi = i
-		}
-	}
-	if pi < 0 || oi < 0 {
-		c.Fail("settle core result shape")
-	}
-	isPaymentList := func(v ssa.Value) bool {
-		s := Sym(v)
-		return strings.Contains(s, "keeper.keeper.accountOpenPayments(") || strings.Contains(s, "keeper.keeper.accountPayments(")
-	}
-	nret := 0
-	for _, r := range successReturns(settle) {
-		nret++
-		od := r.Results[oi]
-		inst := "settle-core success return #" + itoa(nret) + " (overdrawn=" + Sym(od) + ")"
-		pv := r.Results[pi]
-		ok := false
-		detail := ""
-		if isPaymentList(pv) {
-			ok = true
-		} else if isNilConst(pv) {
-			// must be dominated by len(payments)==0 of the open-payment list
-			for _, a := range factsAt(r.Block()) {
-				if a.Op == "eq" {
-					if call, _ := callOf(a.X); call != nil && calleeFull(call) == "builtin.len" && isPaymentList(call.Call.Args[0]) {
-						if k, isK := constInt(a.Y); isK && k == 0 {
-							ok = true
-						}
-					}
-				}
-			}
-			detail = "success return hands a nil payment list to the caller although open payments may exist (caller closes the account but not its payments)"
-		} else {
-			detail = "payment list result " + Sym(pv) + " does not derive from the account's open payments"
-		}
-		c.Ob("R2", inst, r.Pos(), ok, detail)
-	}
+	c.settleHandsOnPayments("R2", settle)
 	c.Floor("R2", 4)
+	c.genesisIdentityRule("R7")
 
 	// ---- R3 co-transition
 	pairs := map[string]string{"AccountClosed": "PaymentClosed", "AccountOverdrawn": "PaymentOverdrawn"}
@@ -643,4 +600,177 @@ func (c *Check) lostUpdateRule(rule string, kfuncs []*ssa.Function) {
 	if n < 10 {
 		c.Fail("%s-%s lost instances: %d record updates", c.ID, rule, n)
 	}
+}
+
+// settleHandsOnPayments: every non-overdrawn success return of the settle core hands the account's open payments to
+// its caller, or is dominated by len(payments)==0 (shared: C03-R2, C02-R7, C05-R4 — AccountClose pays out and closes
+// exactly the payments it is handed).
+func (c *Check) settleHandsOnPayments(rule string, settle *ssa.Function) {
+	c.Analysed(fnName(settle))
+	res := settle.Signature.Results()
+	pi, oi := -1, -1
+	for i := 0; i < res.Len(); i++ {
+		if _, ok := res.At(i).Type().(*types.Slice); ok {
+			pi = i
+		}
+		if b, ok := res.At(i).Type().(*types.Basic); ok && b.Kind() == types.Bool {
+			oi = i
+		}
+	}
+	if pi < 0 || oi < 0 {
+		c.Fail("settle core result shape")
+	}
+	nret := 0
+	for _, r := range successReturns(settle) {
+		nret++
+		od := r.Results[oi]
+		inst := "settle-core success return #" + itoa(nret) + " (overdrawn=" + Sym(od) + ")"
+		pv := r.Results[pi]
+		ok := false
+		detail := ""
+		if isPaymentList(pv) {
+			ok = true
+		} else if isNilConst(pv) {
+			// must be dominated by len(payments)==0 of the open-payment list
+			for _, a := range factsAt(r.Block()) {
+				if a.Op == "eq" {
+					if call, _ := callOf(a.X); call != nil && calleeFull(call) == "builtin.len" && isPaymentList(call.Call.Args[0]) {
+						if k, isK := constInt(a.Y); isK && k == 0 {
+							ok = true
+						}
+					}
+				}
+			}
+			detail = "success return hands a nil payment list to the caller although open payments may exist (caller closes the account but not its payments)"
+		} else {
+			detail = "payment list result " + Sym(pv) + " does not derive from the account's open payments"
+		}
+		c.Ob(rule, inst, r.Pos(), ok, detail)
+	}
+}
+
+// genesisIdentityRule: the escrow genesis validation rejects a duplicate payment by the identity the store uses
+// (account id AND payment id: paymentKey), not by part of it — otherwise a state the keeper can reach (the same payment
+// id under two accounts: lease payment ids repeat across deployments) fails the chain's own genesis validation.
+func (c *Check) genesisIdentityRule(rule string) {
+	l := c.L
+	vg := l.Func("x/escrow", "", "ValidateGenesis")
+	c.Analysed(fnName(vg))
+	n := 0
+	for _, b := range vg.Blocks {
+		r, isR := b.Instrs[len(b.Instrs)-1].(*ssa.Return)
+		if !isR || len(r.Results) != 1 || !strings.Contains(Sym(r.Results[0]), "ErrPaymentExists") {
+			continue
+		}
+		n++
+		// the deciding atoms: those that look into a map of payments
+		ev := ""
+		for _, a := range factsAt(b) {
+			for _, v := range []ssa.Value{a.X, a.Y} {
+				if v == nil {
+					continue
+				}
+				if lookupsPaymentMap(v, 0) {
+					ev += lookupKeys(v, 0) + " " + Sym(a.X) + " "
+					if a.Y != nil {
+						ev += Sym(a.Y) + " "
+					}
+				}
+			}
+		}
+		ok := strings.Contains(ev, ".AccountID") && strings.Contains(ev, ".PaymentID")
+		c.Ob(rule, "genesis validation: a payment is a duplicate only if account id and payment id both repeat", r.Pos(), ok, "duplicate detection keyed by "+short(ev)+": payments that differ in the other part of (account id, payment id) are rejected although the keeper stores them side by side")
+	}
+	c.Ob(rule, "genesis validation rejects duplicate payments", vg.Pos(), n >= 1, "no ErrPaymentExists exit in ValidateGenesis")
+}
+
+// lookupsPaymentMap: v derives from a lookup in a map whose elements are payments (or lists of payments).
+func lookupsPaymentMap(v ssa.Value, depth int) bool {
+	if depth > 8 {
+		return false
+	}
+	switch x := v.(type) {
+	case *ssa.Lookup:
+		if m, ok := x.X.Type().Underlying().(*types.Map); ok && strings.Contains(m.Elem().String(), "escrow/types.Payment") {
+			return true
+		}
+	case *ssa.Alloc:
+		if x.Referrers() != nil {
+			for _, r := range *x.Referrers() {
+				if st, ok := r.(*ssa.Store); ok && st.Addr == ssa.Value(x) && lookupsPaymentMap(st.Val, depth+1) {
+					return true
+				}
+			}
+		}
+	case *ssa.Extract:
+		return lookupsPaymentMap(x.Tuple, depth+1)
+	case *ssa.Field:
+		return lookupsPaymentMap(x.X, depth+1)
+	case *ssa.FieldAddr:
+		return lookupsPaymentMap(x.X, depth+1)
+	case *ssa.IndexAddr:
+		return lookupsPaymentMap(x.X, depth+1)
+	case *ssa.Index:
+		return lookupsPaymentMap(x.X, depth+1)
+	case *ssa.UnOp:
+		return lookupsPaymentMap(x.X, depth+1)
+	case *ssa.BinOp:
+		return lookupsPaymentMap(x.X, depth+1) || lookupsPaymentMap(x.Y, depth+1)
+	case *ssa.Phi:
+		for _, e := range x.Edges {
+			if lookupsPaymentMap(e, depth+1) {
+				return true
+			}
+		}
+	}
+	return false
+}
+
+func isPaymentList(v ssa.Value) bool {
+	s := Sym(v)
+	return strings.Contains(s, "keeper.keeper.accountOpenPayments(") || strings.Contains(s, "keeper.keeper.accountPayments(")
+}
+
+// lookupKeys: the keys of the payment-map lookups v derives from.
+func lookupKeys(v ssa.Value, depth int) string {
+	if depth > 8 {
+		return ""
+	}
+	switch x := v.(type) {
+	case *ssa.Lookup:
+		if m, ok := x.X.Type().Underlying().(*types.Map); ok && strings.Contains(m.Elem().String(), "escrow/types.Payment") {
+			return "key(" + Sym(x.Index) + ")"
+		}
+	case *ssa.Alloc:
+		out := ""
+		if x.Referrers() != nil {
+			for _, r := range *x.Referrers() {
+				if st, ok := r.(*ssa.Store); ok && st.Addr == ssa.Value(x) {
+					out += lookupKeys(st.Val, depth+1)
+				}
+			}
+		}
+		return out
+	case *ssa.Extract:
+		return lookupKeys(x.Tuple, depth+1)
+	case *ssa.Field:
+		return lookupKeys(x.X, depth+1)
+	case *ssa.FieldAddr:
+		return lookupKeys(x.X, depth+1)
+	case *ssa.IndexAddr:
+		return lookupKeys(x.X, depth+1)
+	case *ssa.Index:
+		return lookupKeys(x.X, depth+1)
+	case *ssa.UnOp:
+		return lookupKeys(x.X, depth+1)
+	case *ssa.BinOp:
+		return lookupKeys(x.X, depth+1) + lookupKeys(x.Y, depth+1)
+	case *ssa.Phi:
+		out := ""
+		for _, e := range x.Edges {
+			out += lookupKeys(e, depth+1)
+		}
+		return out
+	}
+	return ""
 }
